@@ -51,8 +51,8 @@ let handle = function
     (match parse wal with
      | None -> "chk parse=fail"
      | Some rs ->
-       Printf.sprintf "chk parse=ok nrec=%d roundtrip=%b wf=%b crc=%b layout=%b sp=%s" (List.length rs)
-         (encode rs = wal) (wf_log rs) (crc_ok rs) layout_ok
+       Printf.sprintf "chk parse=ok nrec=%d roundtrip=%b wf=%b crc=%b crcfull=%b layout=%b sp=%s" (List.length rs)
+         (encode rs = wal) (wf_log rs) (crc_ok rs) (crc_full rs) layout_ok
          (String.concat "," (List.map string_of_z (sp_offsets rs Z0))))
   | ["scan"; dir] ->
     let (f, r) = scan (zlist_of_string (read_file (dir ^ "/db-wal"))) in
